@@ -5,7 +5,7 @@ from autobean_refactor import models
 CASES = {'quick': 3000, 'thorough': 60000}
 GATES = {
     'quick': {'evaluations': 8000, 'assign_value': 3000, 'assign_raw_text': 1500, 'assign_indent': 150, 'token_classes_assigned': 12,
-              'multiline_new_text': 300, 'assign_raw_text_respelling': 400},
+              'multiline_new_text': 300, 'assign_raw_text_respelling': 330},
     'thorough': {'evaluations': 250000, 'token_classes_assigned': 14},
 }
 RULE = ('case = one accepted generated document (stores squeezed into 2..10-token blocks in half of the cases), then 3..10 (thorough ..25) '
